@@ -34,6 +34,8 @@ def make_spec(rng):
     sh["structures_as"] = rng.choice(["dict", "dict", "list", "path"])
     sh["dirty"] = rng.sample(["shuffle_cols", "extra_col", "missing_measure", "bom", "str_numbers", "categorical", "dup_ids",
                               "int_as_float", "index_named", "attrs", "nulls_in_ids"], rng.choice([0, 0, 1, 1, 2]))
+    # spellings of the structure document that the JSON schema accepts besides the canonical one
+    sh["structure_dialect"] = rng.sample(["legacy_type_key", "legacy_viral_role", "referenced_structures", "descriptions"], rng.choice([0, 0, 1, 1, 2, 3]))
     if rng.random() < 0.3:
         spec["kwargs"]["scalar_values"] = {"sc_x": 3, "sc_y": None}
     if rng.random() < 0.25:
@@ -90,6 +92,37 @@ def _dirty(df, kinds, comps, rng):
     return df
 
 
+def _dialect(st, kinds):
+    """Rewrite a canonical structure document into other spellings the schema accepts."""
+    st = copy.deepcopy(st)
+    comps_lists = [d["DataStructure"] for d in st.get("datasets", [])]
+    if "legacy_type_key" in kinds:
+        for cl in comps_lists:
+            for c in cl:
+                if "type" in c:
+                    c["data_type"] = c.pop("type")
+        for sc in st.get("scalars", []):
+            if "type" in sc:
+                sc["data_type"] = sc.pop("type")
+    if "legacy_viral_role" in kinds:
+        for cl in comps_lists:
+            for c in cl:
+                if c.get("role") == "Viral Attribute":
+                    c["role"] = "ViralAttribute"
+    if "descriptions" in kinds:
+        for d in st.get("datasets", []):
+            d["description"] = "dataset " + d["name"]
+            d["source"] = "generated"
+            for c in d["DataStructure"]:
+                c["description"] = "component " + c["name"]
+    if "referenced_structures" in kinds:
+        st["structures"] = []
+        for d in st.get("datasets", []):
+            st["structures"].append({"name": "STR_" + d["name"], "components": d.pop("DataStructure")})
+            d["structure"] = "STR_" + d["name"]
+    return st
+
+
 def build_call(spec, sb, n):
     """Build the python-level call: (callable name, kwargs).  Everything in kwargs is a
     caller-side object whose conservation is checked."""
@@ -111,9 +144,12 @@ def build_call(spec, sb, n):
             kw["datapoints"][name] = _dirty(v, sh["dirty"], comps.get(name), rng)
     if "scalar_values" in kw:
         kw["data_structures"] = dict(kw["data_structures"], scalars=[{"name": "sc_x", "type": "Integer"}, {"name": "sc_y", "type": "Number"}])
+    kw["data_structures"] = _dialect(kw["data_structures"], sh.get("structure_dialect") or [])
     if sh["structures_as"] == "list":
         st = kw["data_structures"]
-        kw["data_structures"] = [{"datasets": [d]} for d in st["datasets"]] + ([{"scalars": st["scalars"]}] if "scalars" in st else [])
+        by_name = {x["name"]: x for x in st.get("structures", [])}
+        kw["data_structures"] = [dict({"datasets": [d]}, **({"structures": [by_name[d["structure"]]]} if "structure" in d else {}))
+                                 for d in st["datasets"]] + ([{"scalars": st["scalars"]}] if "scalars" in st else [])
     elif sh["structures_as"] == "path":
         p = os.path.join(sb.inp, "st_%d.json" % n)
         with open(p, "w") as f:
@@ -256,7 +292,7 @@ def run(ctx):
     n = 2500 if quick else 150000
     seeds = [rng.randrange(1 << 30) for _ in range(n)]
     size = 10
-    done = ctx.map("task_batch", [{"seeds": seeds[i:i + size]} for i in range(0, n, size)])
+    done = ctx.map("task_batch", [{"seeds": seeds[i:i + size]} for i in range(0, n, size)], min_tasks=32)
     violations, samples = [], []
     n_ff = n_faulted = n_peer = 0
     by_api, fired, seams_hit, status = {}, {}, {}, {}
